@@ -6,7 +6,7 @@ import RedisVerif.Lemmas.Crdt
 namespace RedisVerif
 namespace AE
 
-variable {vs : ValueStream}
+variable {vs : ValueStream} {arr : Arrange}
 
 /-! ## sorting `(key_hash, value_hash)` pairs -/
 
@@ -603,13 +603,42 @@ theorem iter_keys_nodup {π : List Nat} {s : NMap RV} (hs : NMap.WF s) (hπ : Va
 def candidates (H : Hasher) (depth : Nat) (π : List Nat) (s : NMap RV) (div : List Nat) : List (Nat × RV) :=
   (iter π s).filter fun p => div.contains (H.key p.1 % 2 ^ depth)
 
+/-- an arrangement only reorders -/
+def ArrOK (arr : Arrange) : Prop := ∀ l, (arr l).Perm l
+
+theorem arrOK_id : ArrOK (fun l => l) := fun l => List.Perm.refl l
+
+theorem insertByKey_perm (le : Nat → Nat → Bool) (e : Nat × RV) (l : List (Nat × RV)) :
+    (insertByKey le e l).Perm (e :: l) := by
+  induction l with
+  | nil => exact List.Perm.refl _
+  | cons x xs ih =>
+    simp only [insertByKey]
+    split
+    · exact List.Perm.refl _
+    · exact (List.Perm.cons x ih).trans (List.Perm.swap e x xs)
+
+theorem arrOK_sortByKey (le : Nat → Nat → Bool) : ArrOK (sortByKey le) := by
+  intro l
+  induction l with
+  | nil => exact List.Perm.refl _
+  | cons x xs ih =>
+    simp only [sortByKey, List.foldr_cons]
+    exact (insertByKey_perm le x _).trans (List.Perm.cons x ih)
+
+theorem arrOK_arrangeOf (so : SimOrder) (le : Nat → Nat → Bool) : ArrOK (arrangeOf so le) := by
+  cases so
+  · exact arrOK_id
+  · exact arrOK_sortByKey le
+
 theorem getKeysInBuckets_eq_take (H : Hasher) (depth limit : Nat) (π : List Nat) (s : NMap RV)
-    (div : List Nat) : getKeysInBuckets H vs depth limit π s div = (candidates H depth π s div).take limit := rfl
+    (div : List Nat) :
+    getKeysInBuckets arr H vs depth limit π s div = (arr (candidates H depth π s div)).take limit := rfl
 
 theorem getKeysInBuckets_full {H : Hasher} {depth limit : Nat} {π : List Nat} {s : NMap RV}
-    {div : List Nat} (h : (candidates H depth π s div).length ≤ limit) :
-    getKeysInBuckets H vs depth limit π s div = candidates H depth π s div := by
-  rw [getKeysInBuckets_eq_take, List.take_of_length_le h]
+    {div : List Nat} (harr : ArrOK arr) (h : (candidates H depth π s div).length ≤ limit) :
+    getKeysInBuckets arr H vs depth limit π s div = arr (candidates H depth π s div) := by
+  rw [getKeysInBuckets_eq_take, List.take_of_length_le (by rw [(harr _).length_eq]; exact h)]
 
 theorem lookup_candidates {H : Hasher} {depth : Nat} {π : List Nat} {s : NMap RV} (div : List Nat)
     (hs : NMap.WF s) (hπ : ValidOrder π s) (k : Nat) :
@@ -636,6 +665,104 @@ theorem get_apply_candidates {H : Hasher} {depth : Nat} {π : List Nat} {s t : N
   · simp only [hd, if_true]
     cases h1 : NMap.get s k <;> cases h2 : NMap.get t k <;> simp [optMerge, mergeInto]
   · simp only [hd, Bool.false_eq_true, if_false]
+
+/-- … in whatever arrangement the candidates are sent -/
+theorem get_apply_arr_candidates {H : Hasher} {depth : Nat} {π : List Nat} {s t : NMap RV} (div : List Nat)
+    (harr : ArrOK arr) (hs : NMap.WF s) (hπ : ValidOrder π s) (k : Nat) :
+    NMap.get (applyDeltas t (arr (candidates H depth π s div))) k
+      = if div.contains (H.key k % 2 ^ depth) then optMerge RV.merge (NMap.get t k) (NMap.get s k)
+        else NMap.get t k := by
+  have hp := harr (candidates H depth π s div)
+  have hn : ((arr (candidates H depth π s div)).map (·.1)).Nodup :=
+    (hp.map (·.1)).nodup_iff.mpr (candidates_keys_nodup div hs hπ)
+  rw [get_applyDeltas _ _ _ hn, lookup_perm_of_nodup hp hn, lookup_candidates div hs hπ]
+  by_cases hd : div.contains (H.key k % 2 ^ depth) = true
+  · simp only [hd, if_true]
+    cases h1 : NMap.get s k <;> cases h2 : NMap.get t k <;> simp [optMerge, mergeInto]
+  · simp only [hd, Bool.false_eq_true, if_false]
+
+/-! ## key order: the arranged response does not depend on the iteration order -/
+
+/-- the laws of a key order (byte-wise `String::cmp` satisfies them) -/
+structure TotalOrder (le : Nat → Nat → Bool) : Prop where
+  total : ∀ a b, le a b = true ∨ le b a = true
+  trans : ∀ a b c, le a b = true → le b c = true → le a c = true
+  antisymm : ∀ a b, le a b = true → le b a = true → a = b
+
+theorem totalOrder_natLe : TotalOrder (fun a b => decide (a ≤ b)) :=
+  ⟨fun a b => by simp only [decide_eq_true_eq]; omega,
+   fun a b c h1 h2 => by simp only [decide_eq_true_eq] at *; omega,
+   fun a b h1 h2 => by simp only [decide_eq_true_eq] at *; omega⟩
+
+theorem sorted_insertByKey {le : Nat → Nat → Bool} (hle : TotalOrder le) {e : Nat × RV} {l : List (Nat × RV)}
+    (h : l.Pairwise (fun a b => le a.1 b.1 = true)) :
+    (insertByKey le e l).Pairwise (fun a b => le a.1 b.1 = true) := by
+  induction l with
+  | nil => simp [insertByKey]
+  | cons x xs ih =>
+    simp only [insertByKey]
+    rw [List.pairwise_cons] at h
+    split
+    · rename_i hc
+      rw [List.pairwise_cons]
+      refine ⟨?_, List.pairwise_cons.mpr h⟩
+      intro b hb
+      rcases List.mem_cons.mp hb with rfl | hb
+      · exact hc
+      · exact hle.trans _ _ _ hc (h.1 b hb)
+    · rename_i hc
+      rw [List.pairwise_cons]
+      refine ⟨?_, ih h.2⟩
+      intro b hb
+      rcases List.mem_cons.mp ((insertByKey_perm le e xs).subset hb) with rfl | hb
+      · rcases hle.total x.1 b.1 with h' | h'
+        · exact h'
+        · exact absurd h' hc
+      · exact h.1 b hb
+
+theorem sorted_sortByKey {le : Nat → Nat → Bool} (hle : TotalOrder le) (l : List (Nat × RV)) :
+    (sortByKey le l).Pairwise (fun a b => le a.1 b.1 = true) := by
+  induction l with
+  | nil => simp [sortByKey]
+  | cons x xs ih =>
+    simp only [sortByKey, List.foldr_cons]
+    exact sorted_insertByKey hle ih
+
+theorem eq_of_key_eq_of_nodup {l : List (Nat × RV)} (hn : (l.map (·.1)).Nodup) {a b : Nat × RV}
+    (ha : a ∈ l) (hb : b ∈ l) (h : a.1 = b.1) : a = b := by
+  induction l with
+  | nil => cases ha
+  | cons x xs ih =>
+    rw [List.map_cons, List.nodup_cons] at hn
+    rcases List.mem_cons.mp ha with rfl | ha' <;> rcases List.mem_cons.mp hb with rfl | hb'
+    · rfl
+    · exfalso; apply hn.1; rw [h]; exact List.mem_map_of_mem hb'
+    · exfalso; apply hn.1; rw [← h]; exact List.mem_map_of_mem ha'
+    · exact ih hn.2 ha' hb'
+
+/-- sorting by key forgets the order of the input (distinct keys) -/
+theorem sortByKey_eq_of_perm {le : Nat → Nat → Bool} (hle : TotalOrder le) {l l' : List (Nat × RV)}
+    (hp : l.Perm l') (hn : (l.map (·.1)).Nodup) : sortByKey le l = sortByKey le l' := by
+  have p1 := arrOK_sortByKey le l
+  have p2 := arrOK_sortByKey le l'
+  apply List.Perm.eq_of_pairwise (le := fun a b : Nat × RV => le a.1 b.1 = true) _
+    (sorted_sortByKey hle l) (sorted_sortByKey hle l') (p1.trans (hp.trans p2.symm))
+  intro a b ha hb h1 h2
+  have ha' : a ∈ l := p1.subset ha
+  have hb' : b ∈ l := hp.symm.subset (p2.subset hb)
+  exact eq_of_key_eq_of_nodup hn ha' hb' (hle.antisymm _ _ h1 h2)
+
+theorem candidates_perm (H : Hasher) (depth : Nat) {π π' : List Nat} (s : NMap RV) (div : List Nat)
+    (h : π.Perm π') : (candidates H depth π s div).Perm (candidates H depth π' s div) :=
+  (iter_perm s h).filter _
+
+theorem getKeysInBuckets_sorted_perm {le : Nat → Nat → Bool} (hle : TotalOrder le) (H : Hasher)
+    (depth limit : Nat) {π π' : List Nat} {s : NMap RV} (div : List Nat) (hs : NMap.WF s)
+    (hπ : ValidOrder π s) (hπ' : ValidOrder π' s) :
+    getKeysInBuckets (sortByKey le) H vs depth limit π s div
+      = getKeysInBuckets (sortByKey le) H vs depth limit π' s div := by
+  rw [getKeysInBuckets_eq_take, getKeysInBuckets_eq_take,
+    sortByKey_eq_of_perm hle (candidates_perm H depth s div (hπ.trans hπ'.symm)) (candidates_keys_nodup div hs hπ)]
 
 theorem get_proj (s : NMap RV) (k : Nat) : NMap.get (proj vs s) k = (NMap.get s k).map vs := by
   unfold proj
